@@ -6,13 +6,14 @@ For each /tmp/wt/out/Cxx/mK: in a fresh scratch worktree of /repo HEAD (removed 
 Usage: tools/confirm_mutants.py [Cxx ...]   (development helper; runs repo code - never part of a registered check)"""
 import json, os, shutil, subprocess, sys, glob, concurrent.futures as cf
 V = os.path.dirname(os.path.dirname(os.path.abspath(__file__)))
-OUT = "/tmp/wt/out"
-props = sys.argv[1:] or sorted(os.listdir(OUT))
+OUT = os.environ.get("MUT_OUT", "/tmp/wt/out")
+TAG = os.environ.get("MUT_TAG", "")
+props = sys.argv[1:] or sorted(x for x in os.listdir(OUT) if os.path.isdir(os.path.join(OUT, x)))
 jobs = []
 for p in props:
     for d in sorted(glob.glob(os.path.join(OUT, p, "m*"))):
         if os.path.exists(os.path.join(d, "patch.diff")) and os.path.exists(os.path.join(d, "demo.py")):
-            sid = "%s-%s" % (p, os.path.basename(d))
+            sid = "%s-%s%s" % (p, TAG, os.path.basename(d))
             if not os.path.exists(os.path.join(V, "seeded", sid, "meta.json")):
                 jobs.append((p, d, sid))
 
